@@ -701,6 +701,14 @@ func runLLFree(w *hist.W, id string, cfg, vals []uint64, ngo int) {
 		elems = cfg[1:]
 	}
 	l := linkedlist.NewLinkedList(elems...)
+	known := map[uint64]bool{}
+	for _, v := range vals {
+		known[v] = true
+	}
+	for _, v := range elems {
+		known[v] = true
+	}
+	var phantom atomic.Int64
 	popped := make([][]uint64, ngo)
 	var wg sync.WaitGroup
 	start := make(chan struct{})
@@ -716,13 +724,23 @@ func runLLFree(w *hist.W, id string, cfg, vals []uint64, ngo int) {
 				} else {
 					l.Push(vals[i])
 				}
-				switch mix(&st) % 4 {
-				case 0:
-					l.Peek()
-				case 1:
-					l.PeekTail()
-				case 2:
-					l.IsEmpty()
+				// a peeked value must be one that was pushed (all of them are non-zero and known): a value that was never in
+				// the list is recorded like a popped one, so that the conservation clause sees it
+				for k := mix(&st) % 6; k > 0; k-- {
+					var v uint64
+					var ok bool
+					switch mix(&st) % 3 {
+					case 0:
+						v, ok = l.Peek()
+					case 1:
+						v, ok = l.PeekTail()
+					case 2:
+						l.IsEmpty()
+					}
+					if ok && !known[v] {
+						popped[g] = append(popped[g], v)
+						phantom.Add(1)
+					}
 				}
 				for mix(&st)%2 == 0 {
 					if v, ok := l.Pop(); ok {
@@ -758,6 +776,7 @@ func runLLFree(w *hist.W, id string, cfg, vals []uint64, ngo int) {
 	w.Count("ll.free.histories", 1)
 	w.Count("ll.free.pushes", len(vals))
 	w.Count("ll.free.concurrent_pops", npop)
+	w.Count("ll.free.peeked_values_never_pushed", int(phantom.Load()))
 }
 
 func runLL(t *testing.T) {
